@@ -19,7 +19,7 @@ FUNCTIONS = [
     "LengthUnits.scale/to_pixels", "GCodeCore.to_distance_mode, GCodeCore.move",
 ]
 BOUNDS = ("Decided for constant-speed curves in ARC-LENGTH terms only: the curve function is a stub "
-          "that places the sample for parameter theta at arc length theta*L on a straight line "
+          "that places the sample for parameter theta at arc length theta*L on a straight 3D line (direction 0.6,0,0.8) "
           "(what arc, circle and constant-radius helix do up to the chord/arc difference, which is "
           "NOT examined). Cell grid: number of oversampled points N = 2..40 (quick: 2..24) x "
           "resolution {0.1, 1.0, 0.5} x distance mode. Solver over: the path length L with "
@@ -35,13 +35,18 @@ BOUNDS = ("Decided for constant-speed curves in ARC-LENGTH terms only: the curve
           "not constant speed (spline, spiral).")
 ASSUMPTIONS = [
     "samples of a constant-speed curve are equally spaced in arc length (stub curve function)",
-    "np.diff, np.linalg.norm, np.ones, np.vstack and boolean-mask indexing are modelled by list "
-    "operations on arc-length values (SymPts); np.linspace is the real one (N is concrete per cell)",
+    "np.diff, np.linalg.norm, np.hypot/np.abs on coordinate columns, np.vstack and boolean-mask "
+    "indexing are modelled exactly for samples that are collinear along a concrete unit vector "
+    "(SymPts); np.linspace is the real one (N is concrete per cell); concrete replays use real numpy",
 ]
 
 
+U = (0.6, 0.0, 0.8)   # direction of the stub curve: a 3D unit vector with exact components
+
+
 class SymPts:
-    """Samples along a straight line: each item is an arc-length value (x coordinate)."""
+    """Samples of a straight constant-speed curve: point i = s_i * U with s_i a (symbolic) arc
+    length. Also used for their differences (np.diff)."""
     def __init__(self, xs):
         self.xs = list(xs)
 
@@ -49,10 +54,19 @@ class SymPts:
     def size(self):
         return 3 * len(self.xs)
 
+    @property
+    def shape(self):
+        return (len(self.xs), 3)
+
     def __len__(self):
         return len(self.xs)
 
     def __getitem__(self, idx):
+        if isinstance(idx, tuple) and len(idx) == 2 and isinstance(idx[0], slice):
+            rows = self.xs[idx[0]]
+            if isinstance(idx[1], (int, _np.integer)):
+                return SymCol(rows, U[int(idx[1])])
+            raise TypeError(idx)
         if isinstance(idx, slice):
             return SymPts(self.xs[idx])
         if isinstance(idx, _np.ndarray) and idx.dtype == bool:
@@ -63,7 +77,17 @@ class SymPts:
 
     def __iter__(self):
         for x in self.xs:
-            yield (x, 0.0, 0.0)
+            yield (x * U[0], x * U[1], x * U[2])
+
+
+class SymCol:
+    """One coordinate column of SymPts: values s_i * coeff."""
+    def __init__(self, xs, coeff):
+        self.xs, self.coeff = list(xs), coeff
+
+
+def _absval(v):
+    return v if v >= 0 else -v
 
 
 class SymDist(list):
@@ -75,7 +99,9 @@ class SymDist(list):
 class _Linalg:
     @staticmethod
     def norm(diffs, axis=None):
-        return SymDist([d if d >= 0 else -d for d in diffs.xs])
+        if isinstance(diffs, SymPts):       # |ds * U| = |ds| because |U| = 1
+            return SymDist([_absval(d) for d in diffs.xs])
+        raise TypeError("norm of an unsupported operand")
 
 
 class FilterNp:
@@ -85,6 +111,19 @@ class FilterNp:
     @staticmethod
     def diff(points, axis=0):
         return SymPts([b - a for a, b in zip(points.xs[:-1], points.xs[1:])])
+
+    @staticmethod
+    def hypot(a, b):
+        if isinstance(a, SymCol) and isinstance(b, SymCol):
+            k = (a.coeff * a.coeff + b.coeff * b.coeff) ** 0.5
+            return SymDist([_absval(x) * k for x in a.xs])
+        return _np.hypot(a, b)
+
+    @staticmethod
+    def abs(a):
+        if isinstance(a, SymCol):
+            return SymDist([_absval(x) * _absval(a.coeff) for x in a.xs])
+        return _np.abs(a)
 
     @staticmethod
     def linspace(start, stop, num):
@@ -105,6 +144,11 @@ class FilterNp:
 def _run_parametric(g, L, N, res):
     """Run the real parametric() with the stub curve; returns the exception or None."""
     g.set_resolution(res)
+    if not MODE.symbolic:
+        # concrete replay: the real numpy code on a real ndarray
+        def real_curve(thetas):
+            return _np.column_stack((thetas * L * U[0], thetas * L * U[1], thetas * L * U[2]))
+        return attempt(g.trace.parametric, real_curve, L)
 
     def curve(thetas):
         return SymPts([float(t) * L for t in thetas.tolist()])
@@ -122,7 +166,11 @@ def _vertices(pre, rec):
     xs = []
     for line in split_lines(rec.text()):
         m.run_line(line)
-        xs.append(m.pos["X"])
+        # arc length of the vertex: it lies on s*U, so s = X / U[0]; Y and Z must agree
+        sx = m.pos["X"] / U[0]
+        if not num_eq(m.pos["Z"], sx * U[2], scale=4.0) or not num_eq(m.pos["Y"], 0.0):
+            raise Malformed(f"vertex {tuple(m.pos.values())!r} is not on the curve")
+        xs.append(sx)
     return xs
 
 
@@ -149,7 +197,7 @@ def _make(N, res, rel):
         ctx = lambda: f"L={L!r} res={res} N={N}: vertices {xs!r}"  # noqa: E731
         if not xs:
             return V("no-segments-emitted", ctx)
-        if not num_eq(xs[-1], L):
+        if not num_eq(xs[-1], L, scale=4.0):
             return V("path-does-not-end-on-target", ctx)
         prev = 0.0
         m = len(xs)
@@ -198,9 +246,11 @@ def _make_halving(N, res):
 
 
 def _make_units():
-    def h(r: Finite):
+    def h(r: Finite, r2: Finite):
         assume(r > 0)
         assume(r <= 1e6)
+        assume(r2 > 0)
+        assume(r2 <= 1e6)
         pre = mkpre(pos=(0.0, 0.0, 0.0))
         g, rec = prepare(pre)
         g.set_resolution(r)
@@ -218,6 +268,15 @@ def _make_units():
         g.set_length_units("millimeters")
         if g.state.resolution != back:
             return V("same-units-changes-resolution", lambda: f"{back!r} -> {g.state.resolution!r}")
+        # a resolution set while in inches is what the next switch converts
+        g.set_length_units("inches")
+        g.set_resolution(r2)
+        g.set_length_units("millimeters")
+        d = g.state.resolution - r2 * 25.4
+        if d > 1e-9 * r2 * 25.4 or -d > 1e-9 * r2 * 25.4:
+            return V("resolution-set-between-switches-is-lost",
+                     lambda: f"set_resolution({r2!r}) in inches, then mm: {g.state.resolution!r}, "
+                             f"expected {r2 * 25.4!r}")
         reached("checked")
         return None
     return h
